@@ -203,21 +203,7 @@ def _run_backend(part, b, groups, k, seed, tier):
                  "seed": seed, "bin": binp, "inst_all": insts_mod, "tier": "quick", "kind": "derived"}
             tasks.append(("c04", t))
             tasks.append(("c05", t))
-    mods = {"c01": c01, "c02": c02, "c03": c03, "c04": c04, "c05": c05, "c08": c08, "c09": c09, "c10": c10, "c15": c15}
-    for (mn, t) in tasks:
-        sub = mods[mn].work(t)
-        # the Decimal precision cap of the dependency is C15's known finding, not a matter of code generation
-        kept = [v for v in sub.violations if v["sig"].get("kind") != "precision_capped_18"]
-        part.count("c15_known_precision_cap_skipped", len(sub.violations) - len(kept))
-        sub.violations = kept
-        for v in sub.violations:
-            v["text"] = "C11 [operators of a generated type, %s oracle] %s" % (mn.upper(), v["text"])
-            v["sig"] = dict(v["sig"], via=mn.upper())
-            v["sig"]["class"] = dict(v["sig"].get("class", {}), via=mn.upper())
-            v["replay"] = {"module": "c11", "backend": b, "kind": "generated", "crate": cdir, "inner": v["replay"]}
-        sub.samples = sub.samples[:1] if mn in ("c01", "c04") else []
-        part.merge(sub)
-        part.count("operator_tasks_" + mn)
+    part._tasks = [(mn, t, b, cdir) for (mn, t) in tasks]
     # cross-permutation comparison
     for grp in groups:
         for d in grp["defs"]:
@@ -245,8 +231,30 @@ def _run_backend(part, b, groups, k, seed, tier):
                  "observed_units": [u["dbg"] for u in dumps["%s::%s" % (modules[0]["name"], modules[0]["defs"][0][0]["name"])]["units"]]}, limit=1)
     part.counters["generated_types_%s" % b] = len(dumps)
     part.counters["generated_groups"] = len(groups)
-    if not part.violations:
-        pl.cleanup(cdir)
+    part._cdir = cdir
+    return part
+
+
+MODS = {"c01": c01, "c02": c02, "c03": c03, "c04": c04, "c05": c05, "c08": c08, "c09": c09, "c10": c10, "c15": c15}
+
+
+def sub_work(args):
+    """One operator workload on a generated type, judged by the oracle of the named property."""
+    mn, t, b, cdir = args
+    part = fw.Part()
+    sub = MODS[mn].work(t)
+    # the Decimal precision cap of the dependency is C15's known finding, not a matter of code generation
+    kept = [v for v in sub.violations if v["sig"].get("kind") != "precision_capped_18"]
+    part.count("c15_known_precision_cap_skipped", len(sub.violations) - len(kept))
+    sub.violations = kept
+    for v in sub.violations:
+        v["text"] = "C11 [operators of a generated type, %s oracle] %s" % (mn.upper(), v["text"])
+        v["sig"] = dict(v["sig"], via=mn.upper())
+        v["sig"]["class"] = dict(v["sig"].get("class", {}), via=mn.upper())
+        v["replay"] = {"module": "c11", "backend": b, "kind": "generated", "crate": cdir, "inner": v["replay"]}
+    sub.samples = sub.samples[:1] if mn in ("c01", "c04") else []
+    part.merge(sub)
+    part.count("operator_tasks_" + mn)
     return part
 
 
@@ -260,15 +268,27 @@ def generate(seed, n_groups):
 
 
 def main(tier, seed, nproc, t0):
-    n_groups, k = (8, 3) if tier == "quick" else (40, 4)
+    n_groups, k = (8, 3) if tier == "quick" else (30, 4)
     total = fw.Part()
     rounds = 1 if tier == "quick" else 3
-    import multiprocessing as mp
+    from concurrent.futures import ThreadPoolExecutor
     for rd in range(rounds):
         groups = generate("%s/%d" % (seed, rd), n_groups)
-        with mp.Pool(2) as pool:
-            for part in pool.imap_unordered(run_backend, [(b, groups, k, seed, tier) for b in ("f64", "dec")]):
-                total.merge(part)
+        # phase A: build the generated executor per back-end (two cargo builds in parallel), judge registries
+        with ThreadPoolExecutor(2) as ex:
+            parts = list(ex.map(run_backend, [(b, groups, k, seed, tier) for b in ("f64", "dec")]))
+        tasks = []
+        cdirs = []
+        for p in parts:
+            tasks.extend(getattr(p, "_tasks", []))
+            if getattr(p, "_cdir", None):
+                cdirs.append(p._cdir)
+            total.merge(p)
+        # phase B: operator workloads on the generated types, all cores
+        total.merge(fw.run_tasks("c11", "sub_work", tasks, nproc))
+        if not total.violations:
+            for c in cdirs:
+                pl.cleanup(c)
     return fw.finish(PID, tier, seed, total, t0, RULE, min_evals=200,
                      assumptions=["the generator's grammar: ASCII word identifiers without digits, literals without suffix/exponent, <= 15 significant digits, "
                                   "unsuffixed integer literals <= i32::MAX (see DESIGN.md 4.4)",
